@@ -86,6 +86,8 @@ def run(rep):
         if not bad: rep.holds('%s: switch rule, counts after swap, window growth, update cadence, first-change search, early/late statistic (%d paths)' % (tag, len(outs)), time.time() - t0)
         if method == 'DualAverage': rep.sample({'query': tag, 'reference switch rule': str(z3.simplify(want_switch))[:500]})
     diag_contract(rep, mir, L)
+    from ..driver import parts
+    parts(rep, [lambda: lowrank_contract(rep, mir, L)])
 
 def _b(v): return z3.BoolVal(v) if isinstance(v, bool) else v
 
@@ -132,3 +134,69 @@ def diag_contract(rep, mir, L):
     rep.paths += npaths; rep.absorb_vm(vm)
     if bad: rep.violated('C09 DiagAdaptStrategy satisfies the estimator contract', 'diag.contract', 'diagonal strategy: %s' % (bad[0],), model={'problems': [str(b)[:300] for b in bad]})
     else: rep.holds('C09 DiagAdaptStrategy: update_estimators counts a draw iff it is good (all four estimators), switch makes the old background the foreground (mean/variance/count) and starts an empty background (%d paths)' % npaths)
+
+
+def lowrank_contract(rep, mir, L):
+    """the oracle contract of A on the real LowRankMassMatrixStrategy (VecDeque window): update_estimators appends the collector's draw and
+    gradient iff the draw is good, switch drops exactly the draws recorded before the previous switch (so nothing older than two windows
+    survives), the counts read foreground = all kept draws / background = draws since the last switch, and update() hands exactly the kept
+    window, in order, to the estimation pipeline (compute_update is the environment)."""
+    from ..vm import SliceRef, VMError
+    A = RealAlg(); vm = VM(mir, A, inst={}); env = MathEnv(vm, 2, 'uf', L); DIM = 2
+    F = 'low_rank'
+    meth = lambda n: mir.method('LowRankMassMatrixStrategy', 'MassMatrixAdaptStrategy', n, file='adapt/low_rank')
+    upd, sw, bgc, fgc, adapt = meth('update_estimators'), meth('switch'), meth('background_count'), meth('current_count'), meth('adapt')
+    # faer Mat as a list of columns
+    vm.add_model(r'^mat::matown::<impl faer::mat::generic::Mat<faer::mat::Own<f64>>>::zeros$', lambda vm, m, c, a: ret(m, Struct((Seq([Seq([A.const(0.0)] * a[0]) for _ in range(a[1])]),), 'Mat')))
+    def col_as_slice_mut(vm, m, c, a):
+        r = a[0]; mat = vm.read_at(m, r.cell, r.path); return ret(m, SliceRef(r.cell, r.path + (('f', 0), ('i', a[1])), 0, len(mat.f[0].items[a[1]].items)))
+    vm.add_model(r'^mat::matown::<impl faer::mat::generic::Mat<faer::mat::Own<f64>>>::col_as_slice_mut$', col_as_slice_mut)
+    def compute_update(vm, m, c, a): m.log('events', ('compute_update', a[1], a[2])); return ret(m, NONE())
+    vm.add_model(r'^LowRankMassMatrixStrategy::compute_update$', compute_update)
+    bad = []; npaths = 0
+    def tag(kind, i): return Seq([Fl(z3.Real('%s%d_%d' % (kind, i, j))) for j in range(DIM)])
+    def strat(k, b): return L.make('LowRankMassMatrixStrategy', {'draws': Seq([tag('x', i) for i in range(k)]), 'grads': Seq([tag('g', i) for i in range(k)]), 'ndim': DIM, 'background_split': b, 'settings': Opaque('settings')})
+    def get(st, f): return L.get('LowRankMassMatrixStrategy', st, f)
+    def same(a, b): return len(a.items) == len(b.items) and all(vm._same(x, y) for x, y in zip(a.items, b.items))
+    for k in range(0, 5):
+        for b in range(0, k + 1):
+            # update_estimators
+            for good in (True, False):
+                m = Machine(); m.ghost['events'] = []; c = m.alloc(strat(k, b)); before = m.mem[c]
+                col = L.make('DrawGradCollector', {'draw': tag('nx', 0), 'grad': tag('ng', 0), 'is_good': good})
+                outs = vm.run(upd, [Ref(c), Ref(m.alloc(Opaque('math'))), Ref(m.alloc(col))], m); npaths += len(outs)
+                for (mm, kk, v) in outs:
+                    if kk != 'ret': bad.append(('update_estimators panics (k=%d)' % k, str(v)[:100])); continue
+                    st = mm.mem[c]; wd = list(get(before, 'draws').items) + ([tag('nx', 0)] if good else []); wg = list(get(before, 'grads').items) + ([tag('ng', 0)] if good else [])
+                    if not same(get(st, 'draws'), Seq(wd)) or not same(get(st, 'grads'), Seq(wg)) or get(st, 'background_split') != b:
+                        bad.append(('update_estimators: window after a %s draw is not the old window%s' % ('good' if good else 'rejected', ' + (draw, gradient) of the collector' if good else ''), 'k=%d b=%d' % (k, b)))
+            # switch, counts
+            m = Machine(); m.ghost['events'] = []; c = m.alloc(strat(k, b)); before = m.mem[c]
+            outs = vm.run(sw, [Ref(c), Ref(m.alloc(Opaque('math')))], m); npaths += len(outs)
+            for (mm, kk, v) in outs:
+                if kk != 'ret': bad.append(('switch panics from a state with %d draws, %d of them before the last switch' % (k, b), str(v)[:100])); continue
+                st = mm.mem[c]
+                if not same(get(st, 'draws'), Seq(get(before, 'draws').items[b:])) or not same(get(st, 'grads'), Seq(get(before, 'grads').items[b:])): bad.append(('switch does not drop exactly the draws recorded before the previous switch', 'k=%d b=%d' % (k, b)))
+                if get(st, 'background_split') != k - b: bad.append(('switch: the new background does not start empty', 'k=%d b=%d' % (k, b)))
+                for fn, want in ((bgc, 0), (fgc, k - b)):
+                    for (m4, k4, v4) in vm.run(fn, [Ref(c)], mm.clone()):
+                        if k4 != 'ret' or v4 != want: bad.append(('count accessor wrong after switch', fn.name.split('::')[-1], str(v4)))
+            for fn, want in ((bgc, k - b), (fgc, k)):
+                m = Machine(); c = m.alloc(strat(k, b))
+                for (m4, k4, v4) in vm.run(fn, [Ref(c)], m):
+                    if k4 != 'ret' or v4 != want: bad.append(('count accessor wrong', fn.name.split('::')[-1], 'k=%d b=%d got %s' % (k, b, v4)))
+            # adapt -> update -> compute_update sees exactly the kept window
+            m = Machine(); m.ghost['events'] = []; c = m.alloc(strat(k, b)); before = m.mem[c]
+            outs = vm.run(adapt, [Ref(c), Ref(m.alloc(Opaque('math'))), Ref(m.alloc(Opaque('mass matrix')))], m); npaths += len(outs)
+            for (mm, kk, v) in outs:
+                if kk != 'ret': bad.append(('adapt panics (k=%d)' % k, str(v)[:100])); continue
+                ev = [e for e in mm.ghost['events'] if e[0] == 'compute_update']
+                if k < 3:
+                    if ev or v is not False: bad.append(('adapt estimates from fewer than three draws', 'k=%d' % k))
+                    continue
+                if len(ev) != 1 or v is not True: bad.append(('adapt with %d draws does not run the estimation once and report a change' % k,)); continue
+                dm, gm = ev[0][1].f[0], ev[0][2].f[0]
+                if not same(dm, get(before, 'draws')) or not same(gm, get(before, 'grads')): bad.append(('the estimation pipeline does not receive exactly the kept window (draw i / gradient i as column i)', 'k=%d' % k))
+    rep.paths += npaths; rep.absorb_vm(vm)
+    if bad: rep.violated('C09 LowRankMassMatrixStrategy satisfies the estimator contract', 'lowrank.contract', 'low-rank strategy: %s' % (bad[0],), model={'problems': [str(x)[:300] for x in bad[:8]]})
+    else: rep.holds('C09 LowRankMassMatrixStrategy (window of 0..4 draws, every split): update_estimators appends (draw, gradient) iff the draw is good, switch drops exactly the draws before the previous switch and starts an empty background, counts are exact, adapt needs >= 3 draws and feeds exactly the kept window to the estimation (%d paths)' % npaths)
